@@ -111,7 +111,7 @@ def run_check(mod, tier, seed=0, procs=None, only=None):
             results.append(_worker((modname, c)))
     else:
         ctx = multiprocessing.get_context("fork")
-        with ctx.Pool(procs, maxtasksperchild=8) as pool:
+        with ctx.Pool(procs, maxtasksperchild=1) as pool:
             for r in pool.imap_unordered(_worker, [(modname, c) for c in cfgs], 1):
                 results.append(r)
     results.sort(key=lambda r: json.dumps(r["config"], sort_keys=True, default=str))
